@@ -35,6 +35,11 @@ type XferCfg struct {
 	// order, instead of the single srcRoot (several paths, possibly with equal
 	// base names). The caller computes the expected digest itself.
 	SrcList []string `json:"-"`
+	// KeepSenderOpen: the sender's connection is not closed when its transfer
+	// function returns but only when the receiver has returned too (or the
+	// watchdog fired). Used where the close racing ahead of the last records
+	// is a recorded finding of its own and must not mask what is being looked at.
+	KeepSenderOpen bool `json:"keep_sender_open,omitempty"`
 
 	WatchdogMs int `json:"watchdog_ms,omitempty"` // default 20000
 
@@ -310,7 +315,9 @@ func RunTransfer(ctx context.Context, cfg XferCfg, lp *ListenerPool, srcRoot, ou
 		res.SendErr, res.SendReturned = err, true
 		mu.Unlock()
 		// the application closes the connection when its transfer function returns
-		x.CloseSender()
+		if !cfg.KeepSenderOpen {
+			x.CloseSender()
+		}
 		close(sdone)
 	})
 	go pprof.Do(context.Background(), pprof.Labels("xfer", label, "side", "recv"), func(context.Context) {
@@ -423,6 +430,9 @@ func RunTransfer(ctx context.Context, cfg XferCfg, lp *ListenerPool, srcRoot, ou
 			defer mu.Unlock()
 			return res
 		}
+	}
+	if cfg.KeepSenderOpen {
+		x.CloseSender()
 	}
 	mu.Lock()
 	defer mu.Unlock()
